@@ -113,6 +113,11 @@ FromsAmbOn6 == {<<From1("l", ""), [tbl |-> "r", alias |-> "", jt |-> jt, on |-> 
                    on \in { << <<Cmp(Col("", "k"), "=", Col("r", "k"))>> >>, << <<Cmp(Col("l", "k"), "=", Col("", "k"))>> >>,   \* a lone equality
                             << <<Cmp(Col("", "k"), "=", Col("", "k"))>> >>, << <<Cmp(Col("l", "id"), "=", Col("r", "y")), Cmp(Col("", "k"), "=", Lit(IntV(1)))>> >>,
                             << <<Cmp(Col("l", "id"), "<", Col("r", "y"))>>, <<Cmp(Col("", "k"), "=", Lit(IntV(1)))>> >> }}
+\* ... and in a chain: a name that is unique while the first two tables are joined and ambiguous once the third one is
+\* (w is a column of r and of z): the second ON must be refused although the first one used the very same reference
+FromsChainAmb6 == {<<From1("l", ""), [tbl |-> "r", alias |-> "", jt |-> j1, on |-> << <<Cmp(Col("l", "k"), "=", Col("r", "k")), Cmp(Col("", "w"), "!=", Lit(StrV(<<99>>)))>> >>],
+                     [tbl |-> "z", alias |-> "", jt |-> j2, on |-> << <<Cmp(c1, "=", Col("z", "w"))>> >>]>> :
+                       j1 \in JTs, j2 \in JTs, c1 \in {Col("", "w"), Col("r", "w")}}
 FromsSame6 == {<<From1("l", ""), [tbl |-> "l", alias |-> "", jt |-> jt, on |-> << <<Cmp(Lit(IntV(1)), "=", Lit(IntV(1)))>> >>]>> : jt \in JTs}
               \cup {<<From1("l", ""), [tbl |-> "r", alias |-> "l", jt |-> "inner", on |-> << <<Cmp(Col("", "id"), "=", Lit(IntV(2)))>> >>]>>}
 ListsSame6 == {<<Star>>, <<ColItem("", "id", "")>>, <<ColItem("l", "k", ""), ColItem("", "x", "")>>, <<ColItem("", "w", "")>>}
@@ -177,7 +182,7 @@ Wheres7 == {<<>>, << <<Cmp(Col("", "m"), "<", Lit(IntV(100)))>> >>, << <<Cmp(Col
 Out(name, S) == PrintT(<<"SCN", ToJson([set |-> name, elems |-> SetToSeq(S)])>>)
 ASSUME /\ Out("tables5", Tables5) /\ Out("wheres5", Wheres5) /\ Out("listorders5", ListOrders5) /\ Out("limoffs", LimOffs)
        /\ Out("dbs6", Dbs6) /\ Out("froms6", Froms6) /\ Out("fromsalias6", FromsAlias6) /\ Out("lists6", Lists6)
-       /\ Out("listsalias6", ListsAlias6) /\ Out("wheres6", Wheres6) /\ Out("fromssame6", FromsSame6) /\ Out("fromsambon6", FromsAmbOn6) /\ Out("listssame6", ListsSame6)
+       /\ Out("listsalias6", ListsAlias6) /\ Out("wheres6", Wheres6) /\ Out("fromssame6", FromsSame6) /\ Out("fromsambon6", FromsAmbOn6 \cup FromsChainAmb6) /\ Out("listssame6", ListsSame6)
        /\ Out("tables7", Tables7) /\ Out("listgroups7", ListGroups7) /\ Out("wheres7", Wheres7)
        /\ Out("joinlistgroups7", JoinListGroups7) /\ Out("fromself7", {FromSelf7})
 Init == x = 0
